@@ -75,6 +75,18 @@ def run(ctx):
         if "ASTLogicalNotExpression" in a or not a.startswith("OK"):
             pfam.report(ctx, "bang-as-not-outside-hive", {"kind": "input", "entry": "parse_statements", "dialect": d, "input": t, "observed": a[:300],
                                                           "oracle": "c13: `!` is NOT only for Hive", "how_found": "fixed"})
+    # … also when Hive texts were parsed earlier in the same process (the dialect is a parameter of the call, not a mode of the library)
+    seq = []
+    for d, t in others:
+        seq += [pfam.req_parse("HIVE", "SELECT a FROM t WHERE ! a = b AND IF(! c = 1, 1, 2) > 0"), pfam.req_parse("DB2", "SELECT CURRENT DATE FROM t"), pfam.req_parse(d, t),
+                pfam.req_parse(d, "SELECT a FROM t WHERE c IN (SELECT IF(! y = x, 1, 2) FROM u)")]
+    sa = E.run_impl(seq, jobs=1)
+    ctx.cov["evaluations"] += len(seq)
+    for i, (d, t) in enumerate(others):
+        for a in sa[4 * i + 2:4 * i + 4]:
+            if "ASTLogicalNotExpression" in a or not a.startswith("OK"):
+                pfam.report(ctx, "bang-as-not-outside-hive", {"kind": "input", "entry": "parse_statements", "dialect": d, "input": t, "observed": a[:300], "after": "a HIVE parse in the same process",
+                                                              "oracle": "c13: `!` is NOT only for Hive, whatever was parsed before", "how_found": "fixed sequence"})
     # (b), (c): all dialect pairs
     cases = pfam.scripts(ctx.rng.fork("pairs"), n, wild=0.05, single=True)
     cases += [(d, t, "tree-first") for d, t in pfam.tree_texts(ctx.rng.fork("trees"), 100 if ctx.quick else 2000)]
@@ -116,6 +128,10 @@ def run(ctx):
 
 
 def replay(payload):
+    if "after" in payload:
+        a = E.run_impl([pfam.req_parse("HIVE", "SELECT a FROM t WHERE ! a = b"), pfam.req_parse(payload["dialect"], payload["input"])], jobs=1)
+        print(a[1][:400])
+        return 1 if "ASTLogicalNotExpression" in a[1] or not a[1].startswith("OK") else 0
     if "plain" in payload:
         a = E.run_impl([pfam.req_parse(payload["dialect"], payload["input"]), pfam.req_parse(payload["dialect"], payload["plain"])])
         print(a[0][:300]); print(a[1][:300])
